@@ -87,7 +87,11 @@ struct SigRec {
 };
 static std::vector<SigRec> g_signals;
 static int g_seq = 0;
-static bool g_quietRx = false;   // relay mode with very many elements: do not journal each of them
+static bool g_quietRx = false;
+struct AutoReply {
+    QString childns, xml;  // $ID is replaced by the id of the element answered
+};
+static std::vector<AutoReply> g_autoReplies;  // answered from inside the reader: for client calls that block in a nested event loop   // relay mode with very many elements: do not journal each of them
 static QByteArray g_certPem, g_keyPem;
 
 static void J(QJsonObject o)
@@ -250,6 +254,14 @@ struct Conn {
         J(o);
         queue << o;
         if (!el.attribute(u"id"_s).isEmpty() && tag == u"iq") lastId = el.attribute(u"id"_s);
+        for (const auto &ar : g_autoReplies) {
+            if (tag == u"iq" && (o["type"].toString() == u"get" || o["type"].toString() == u"set") && o["childns"].toString() == ar.childns) {
+                QString x = ar.xml;
+                x.replace(u"$ID"_s, el.attribute(u"id"_s));
+                J({ { "ev", "srv_tx" }, { "c", clientIndex }, { "conn", connIndex }, { "xml", x }, { "autoreply", true } });
+                send(x.toUtf8());
+            }
+        }
         if (autoAck && smOn && tag == u"r" && ns == u"urn:xmpp:sm:3") {
             const QByteArray a = "<a xmlns='urn:xmpp:sm:3' h='" + QByteArray::number(smInbound) + "'/>";
             J({ { "ev", "srv_tx" }, { "c", clientIndex }, { "conn", connIndex }, { "xml", QString::fromUtf8(a) }, { "auto", true } });
@@ -1012,6 +1024,27 @@ struct Case {
             });
             return true;
         }
+        if (op == u"autoreply") {
+            g_autoReplies.push_back({ st["childns"].toString(), st["xml"].toString() });
+            return true;
+        }
+        if (op == u"rpcCall") {  // blocking XML-RPC call (nested event loop inside the library): started from a timer, answered by an autoreply rule
+            auto &c = cli(st);
+            Cli *cp = &c;
+            const QString to = st["to"].toString(u"responder@example.org/rpc"_s);
+            QTimer::singleShot(0, &c.ctx, [=, this]() {
+                auto *rm = cp->client->findExtension<QXmppRpcManager>();
+                if (!rm) return;
+                J({ { "ev", "rpc_call" }, { "c", cp->index } });
+                auto r = rm->callRemoteMethod(to, u"Iface.method"_s, QVariant(1), QVariant(u"two"_s));
+                J({ { "ev", "rpc_done" }, { "c", cp->index }, { "hasError", r.hasError }, { "result", r.result.toString() }, { "message", r.errorMessage } });
+            });
+            return spinUntil([&] {
+                for (auto it = g_journal->rbegin(); it != g_journal->rend(); ++it)
+                    if ((*it)["ev"].toString() == u"rpc_done") return true;
+                return false;
+            }, timeout);
+        }
         if (op == u"mgr") {  // a request through a manager's task-returning API; the completion is journaled with its count
             auto &c = cli(st);
             Cli *cp = &c;
@@ -1354,6 +1387,7 @@ int main(int argc, char **argv)
         std::vector<QJsonObject> journal;
         g_journal = &journal;
         g_signals.clear();
+        g_autoReplies.clear();
         g_seq = 0;
         int stalledAt = -1;
         {
